@@ -44,7 +44,7 @@ type Profile struct {
 	LateAdd        bool
 	Epilogues      []string
 	PrioExtreme    bool // priorities from the whole int range now and then
-	Faults         int // percent of scenarios with one filler/extender fault
+	Faults         int  // percent of scenarios with one filler/extender fault
 	PtyRowsMax     int
 }
 
